@@ -492,3 +492,91 @@ pub fn run_dribble(case: &DribbleCase) -> Result<u64, String> {
     }
     Ok(calls.load(std::sync::atomic::Ordering::Relaxed))
 }
+
+
+// ---------------------------------------------------------------------------------------------
+// ... and a writer that LEARNS from earlier calls is only seen by executions in which the earlier calls were what it
+// learns from: two large frames and a TINY through a transport whose first four write calls accept a scripted number
+// of bytes each (every script over {everything, 1, 100, 256, 300, half, all but one}), everything afterwards.
+
+#[derive(Debug)]
+struct Scripted { script: Vec<usize>, at: usize, out: std::sync::Arc<std::sync::Mutex<Vec<u8>>> }
+impl Scripted {
+    fn take(&mut self, len: usize) -> usize {
+        let k = self.script.get(self.at).copied().unwrap_or(usize::MAX);
+        self.at += 1;
+        // encoded choices: MAX = everything, MAX-1 = half, MAX-2 = all but one
+        let n = if k == usize::MAX { len } else if k == usize::MAX - 1 { (len / 2).max(1) } else if k == usize::MAX - 2 { len.saturating_sub(1).max(1) } else { k.min(len) };
+        n.max(1).min(len)
+    }
+}
+impl io::Read for Scripted { fn read(&mut self, _b: &mut [u8]) -> io::Result<usize> { Ok(0) } }
+impl io::Write for Scripted {
+    fn write(&mut self, buf: &[u8]) -> io::Result<usize> { let n = self.take(buf.len()); self.out.lock().unwrap().extend_from_slice(&buf[..n]); Ok(n) }
+    fn flush(&mut self) -> io::Result<()> { Ok(()) }
+}
+impl AsyncRead for Scripted { fn poll_read(self: Pin<&mut Self>, _cx: &mut Context<'_>, _b: &mut ReadBuf<'_>) -> Poll<io::Result<()>> { Poll::Ready(Ok(())) } }
+impl AsyncWrite for Scripted {
+    fn poll_write(mut self: Pin<&mut Self>, _cx: &mut Context<'_>, buf: &[u8]) -> Poll<io::Result<usize>> { let n = self.take(buf.len()); self.out.lock().unwrap().extend_from_slice(&buf[..n]); Poll::Ready(Ok(n)) }
+    fn poll_flush(self: Pin<&mut Self>, _cx: &mut Context<'_>) -> Poll<io::Result<()>> { Poll::Ready(Ok(())) }
+    fn poll_shutdown(self: Pin<&mut Self>, _cx: &mut Context<'_>) -> Poll<io::Result<()>> { Poll::Ready(Ok(())) }
+}
+
+pub struct ScriptedCase { pub tokio: bool, pub compressed: bool, pub name: String, pub packet: Packet, pub script: Vec<usize> }
+impl ScriptedCase {
+    pub fn label(&self) -> String {
+        let show = |k: &usize| if *k == usize::MAX { "all".to_string() } else if *k == usize::MAX - 1 { "half".into() } else if *k == usize::MAX - 2 { "all-but-one".into() } else { k.to_string() };
+        format!("scripted-acceptance#{}#{}#{} twice + TINY#accepting {:?} then everything", if self.tokio { "tokio" } else { "blocking" }, if self.compressed { "compressed" } else { "uncompressed" }, self.name, self.script.iter().map(show).collect::<Vec<_>>())
+    }
+}
+
+pub fn scripted_cases() -> Vec<ScriptedCase> {
+    let choices = [usize::MAX, 1, 100, 256, 300, usize::MAX - 1, usize::MAX - 2];
+    let mut scripts: Vec<Vec<usize>> = vec![];
+    for a in choices { for b in choices { for c in choices { for d in choices { scripts.push(vec![a, b, c, d]); } } } }
+    let mut out = vec![];
+    for compressed in [true, false] {
+        let codec = Codec::new(mode_of(compressed));
+        let mut packets: Vec<(String, Packet)> = vec![];
+        for cn in crate::typed::counted() {
+            for n in [(1016 - cn.header) / cn.elem, (600 - cn.header.min(600)) / cn.elem, (252 - cn.header) / cn.elem] {
+                let Some(p) = (cn.make)(n) else { continue };
+                if !matches!(crate::report::guard(|| codec.encode(&p)), Ok(Ok(_))) { continue; }
+                if !["AXM", "MCI", "NLP"].contains(&cn.kind) { continue; }
+                packets.push((format!("{}x{n}", cn.kind), p));
+            }
+        }
+        for (name, p) in packets {
+            for tokio in [false, true] {
+                for sc in &scripts { out.push(ScriptedCase { tokio, compressed, name: name.clone(), packet: p.clone(), script: sc.clone() }); }
+            }
+        }
+    }
+    out
+}
+
+pub fn run_scripted(case: &ScriptedCase) -> Result<(), String> {
+    let codec = Codec::new(mode_of(case.compressed));
+    let tiny = Packet::Tiny(Tiny { reqi: RequestId(1), subt: TinyType::Ping });
+    let f = codec.encode(&case.packet).map_err(|e| format!("MACHINERY encode {e:?}"))?.to_vec();
+    let mut want = f.clone();
+    want.extend_from_slice(&f);
+    want.extend_from_slice(&codec.encode(&tiny).map_err(|e| format!("MACHINERY encode {e:?}"))?);
+    let out = std::sync::Arc::new(std::sync::Mutex::new(Vec::<u8>::new()));
+    let t = Scripted { script: case.script.clone(), at: 0, out: out.clone() };
+    let results: Vec<Result<(), String>> = if case.tokio {
+        let rt = tokio::runtime::Builder::new_current_thread().enable_time().start_paused(true).build().map_err(|e| format!("MACHINERY {e}"))?;
+        let mut framed = insim::net::tokio_impl::Framed::new(Box::new(t), Codec::new(mode_of(case.compressed)));
+        rt.block_on(async { vec![framed.write(case.packet.clone()).await.map_err(|e| e.to_string()), framed.write(case.packet.clone()).await.map_err(|e| e.to_string()), framed.write(tiny.clone()).await.map_err(|e| e.to_string())] })
+    } else {
+        let mut framed = insim::net::blocking_impl::Framed::new(Box::new(t), Codec::new(mode_of(case.compressed)));
+        vec![framed.write(case.packet.clone()).map_err(|e| e.to_string()), framed.write(case.packet.clone()).map_err(|e| e.to_string()), framed.write(tiny.clone()).map_err(|e| e.to_string())]
+    };
+    for (i, r) in results.iter().enumerate() { if let Err(e) = r { return Err(format!("write #{i} returned {e} although the transport never failed")); } }
+    let got = out.lock().unwrap();
+    if *got != want {
+        let at = got.iter().zip(want.iter()).position(|(a, b)| a != b).unwrap_or(got.len().min(want.len()));
+        return Err(format!("the transport received {} bytes where the three frames are {} bytes; first difference at byte {at}", got.len(), want.len()));
+    }
+    Ok(())
+}
